@@ -31,8 +31,10 @@ def _m_chain_insert_after_swap(dev):
         and "insert" in (dev.get("hist", [])[dev.get("hist", []).index("vine_swap"):] + [dev.get("act", {}).get("op")])
 
 
-MATCHERS = {"C06-ru-map-removal-then-swap": _m_ru_map, "C06-chain-removal-and-swap": _m_chain,
-            "C06-ru-nobarcode-map": _m_ru_nobarcode, "C06-chain-insert-after-swap": _m_chain_insert_after_swap}
+# Only findings with status "known" in known_findings.json can match; the chain matchers are kept for C15's
+# classification of sanitizer reports on the same configurations but have no entry any more.
+MATCHERS = {"C06-ru-map-removal-then-swap": _m_ru_map, "C06-ru-nobarcode-map": _m_ru_nobarcode}
+OLD_CHAIN_MATCHERS = {"C06-chain-removal-and-swap": _m_chain, "C06-chain-insert-after-swap": _m_chain_insert_after_swap}
 
 
 
